@@ -167,7 +167,12 @@ fn imgop(ctx: &mut Ctx, case: &Value, out: &mut Map<String, Value>) {
             rz.set_cpu_extensions(cpu);
         }
         let default_opts = fir::ResizeOptions::new();
-        let opts_ref = opts.as_ref().unwrap_or(&default_opts);
+        // "opt_none": the call passes `None` for the options (library defaults)
+        let opts_ref = if case.get("opt_none").and_then(|b| b.as_bool()).unwrap_or(false) {
+            None
+        } else {
+            Some(opts.as_ref().unwrap_or(&default_opts))
+        };
         let mut op = match op_name.as_str() {
             "resize" => Op::Resize(rz, opts_ref),
             "mul" | "mul_inplace" => Op::Mul(&md),
